@@ -479,7 +479,18 @@ let () =
               | _ -> []) (Array.to_list (fields ops.(!k)))) in
           let tags = List.map (layout_tag !m) (operand_ids ops.(!k) @ dests) in
           let gn = if gn = "order-mix" && tags <> [] && List.for_all (fun t -> String.contains t 'c') tags then "all-col-major" else gn in
-          Printf.sprintf "c20.%s:%s:%s" a.(0)
-            (f.(0) ^ (if Array.length f > 1 && (f.(0) = "bin" || f.(0) = "bins" || f.(0) = "lin") then "." ^ f.(1) else "")) gn
+          (* the option mode, and whether a destination tensor has another shape than the operand
+             (it is then reshaped by the option handling) *)
+          let mode = List.fold_left (fun acc tok ->
+              match String.split_on_char '.' tok with
+              | ("safe" | "unsafe" | "reuse" | "incr" | "both") as m0 :: _ -> m0
+              | _ -> acc) "safe" (List.tl (Array.to_list (fields ops.(!k)))) in
+          let shape_of i = (match get_t !m (nat_of_int i) with Some d -> d.d_ap.shp | None -> []) in
+          let reshaped = (match operand_ids ops.(!k) with
+              | o0 :: _ -> List.exists (fun d -> shape_of d <> shape_of o0) dests
+              | [] -> false) in
+          let gn = if reshaped && f.(0) <> "lin" then gn ^ "+dest-reshaped" else gn in
+          Printf.sprintf "c20.%s:%s:%s:%s" a.(0)
+            (f.(0) ^ (if Array.length f > 1 && (f.(0) = "bin" || f.(0) = "bins" || f.(0) = "lin") then "." ^ f.(1) else "")) gn mode
         end in
       { model = "-"; spec; cls })
